@@ -72,3 +72,15 @@ package identity
 //@     invariant forall k int :: { eff(i, clockName, k) } 0 <= k && k <= rangeindex ==> eff(i, clockName, k) <= time
 //@     invariant lastTime == (rangeindex < 0 ? 0 : eff(i, clockName, rangeindex))
 //@     invariant result == (rangeindex < 0 ? nil : i.versions[rangeindex].keys)
+
+// Validation of stored identity data: must never panic, whatever was decoded from JSON
+// (decoded pointer slices may contain nil elements).
+//@ func (*Key).Validate
+//@   props C07
+//@   nopanic
+//@   requires [receiver] k != nil
+
+//@ func (*version).Validate
+//@   props C07 C09
+//@   nopanic
+//@   requires [receiver] v != nil
